@@ -43,8 +43,9 @@ Definition content := N.
 Record file := mkFile { f_bytes : content; f_size : N; f_mtime : N }.
 
 Inductive kmode := MHash | MStat.          (* [storage] use_mtime_and_size_for_item_cache = False | True *)
-Inductive loc := LIn | LSub.               (* [storage] use_cache_subfolder_for_item = False | True:
-                                              <collection>/.Radicale.cache/item  |  collection-cache/<path>/.Radicale.cache/item *)
+Inductive loc := LIn | LSub (root : N).    (* [storage] use_cache_subfolder_for_item = False | True:
+                                              <collection>/.Radicale.cache/item  |  <root>/collection-cache/<path>/.Radicale.cache/item
+                                              where <root> is filesystem_cache_folder, or filesystem_folder when that is empty *)
 Inductive lockmode := LkR | LkW.           (* self._storage._lock.locked *)
 
 Record cfg := mkCfg { g_mode : kmode; g_loc : loc; g_ver : N; g_skip : bool }.
@@ -64,7 +65,7 @@ Definition ckey_eqb (a b : ckey) : bool :=
   end.
 
 Definition loc_eqb (a b : loc) : bool :=
-  match a, b with LIn, LIn => true | LSub, LSub => true | _, _ => false end.
+  match a, b with LIn, LIn => true | LSub m, LSub n => N.eqb m n | _, _ => false end.
 
 Definition fkey := (coll * href)%type.                 (* an item file *)
 Definition ekey := (loc * coll * href)%type.           (* a cache entry file *)
@@ -198,7 +199,7 @@ Section Model.
     let fs0 := filter (not_coll_file c) (s_files s) in
     let ca0 := filter (not_in_coll_entry c) (s_cache s) in
     mkSt (bulk_files fs0 c items)
-         (match g_loc g with LIn => bulk_cache g ca0 c items | LSub => ca0 end).
+         (match g_loc g with LIn => bulk_cache g ca0 c items | LSub _ => ca0 end).
 
   (* ---------------------------------------------------------------- delete.py 31-62 *)
   Definition delete_item (g : cfg) (s : st) (c : coll) (h : href) : option st :=
